@@ -324,7 +324,8 @@ LEVEL_TEXT = (
     "same membrane-backed object with identical explicit arguments and compared bitwise (fluxes) or at rounding level "
     "(derived quantities); the arguments of the flux calculation made inside every helper are recorded and must carry the "
     "caller's activity model, precision and permeate condition; every step of hundreds of process runs of all four kinds "
-    "is re-computed standalone at the reported state (bitwise). Held means no disagreement on this run's executions."
+    "is re-computed standalone at the reported state (bitwise); the public driving-force routine called directly at the "
+    "converged permeate composition must return the standalone fluxes (bitwise). Held means no disagreement on this run's executions."
 )
 LEVEL_NOTE = "Trusted: determinism of the library (decided separately by C20); the wrapper that records inner calls sits on Pervaporation.calculate_partial_fluxes."
 TECHNIQUE = "runtime monitoring: boundary recorder of inner calls + cross-entry-point agreement oracle + per-step standalone recomputation over seeded executions"
